@@ -563,6 +563,58 @@ func sortedEntries(m reflect.Value) [][2]reflect.Value {
 	return out
 }
 
+// goCanon prints a decoded Go value in a form that is a function of the value alone: map
+// entries in the order of their printed keys and values (fmt prints several NaN keys of a map
+// in no particular order), floats by their bits, nil told apart from empty.
+func goCanon(v reflect.Value) string {
+	if !v.IsValid() {
+		return "<invalid>"
+	}
+	switch v.Kind() {
+	case reflect.Ptr, reflect.Interface:
+		if v.IsNil() {
+			return "nil"
+		}
+		return "&" + goCanon(v.Elem())
+	case reflect.Struct:
+		var parts []string
+		for i := 0; i < v.NumField(); i++ {
+			parts = append(parts, v.Type().Field(i).Name+":"+goCanon(v.Field(i)))
+		}
+		return "{" + strings.Join(parts, " ") + "}"
+	case reflect.Slice:
+		if v.IsNil() {
+			return "nil[]"
+		}
+		if v.Type().Elem().Kind() == reflect.Uint8 {
+			return fmt.Sprintf("x%x", v.Bytes())
+		}
+		fallthrough
+	case reflect.Array:
+		var parts []string
+		for i := 0; i < v.Len(); i++ {
+			parts = append(parts, goCanon(v.Index(i)))
+		}
+		return "[" + strings.Join(parts, " ") + "]"
+	case reflect.Map:
+		if v.IsNil() {
+			return "nil{}"
+		}
+		var parts []string
+		it := v.MapRange()
+		for it.Next() {
+			parts = append(parts, goCanon(it.Key())+"=>"+goCanon(it.Value()))
+		}
+		sort.Strings(parts)
+		return "map{" + strings.Join(parts, " ") + "}"
+	case reflect.Float32, reflect.Float64:
+		return fmt.Sprintf("f%016x", math.Float64bits(v.Float()))
+	case reflect.String:
+		return fmt.Sprintf("%q", v.String())
+	}
+	return fmt.Sprint(v.Interface())
+}
+
 // goDiff explains a difference that the serialised forms do not show.
 func goDiff(a, b genOutcome) string {
 	if a.obj == nil || b.obj == nil || a.err != "" || b.err != "" || !ref.Equal(a.val, b.val) {
